@@ -23,8 +23,16 @@ class Budget(Exception):
     pass
 
 
+TIME_LIMIT = 4.0     # seconds of wall clock per call on top of the traced-line budget: work hidden inside one source
+                     # line (a regular expression, a C-level loop) does not show up as traced lines
+
+
 def run_budgeted(fn, data, kw, budget):
+    import signal
     count = [0]
+
+    def on_alarm(signum, frame):
+        raise Budget()
 
     def local(frame, event, arg):
         if event == "line":
@@ -37,6 +45,8 @@ def run_budgeted(fn, data, kw, budget):
         if event == "call" and "pyscsi" in frame.f_code.co_filename:
             return local
         return None
+    old = signal.signal(signal.SIGALRM, on_alarm)
+    signal.setitimer(signal.ITIMER_REAL, TIME_LIMIT + len(data) * 1e-4)
     sys.settrace(glob)
     try:
         try:
@@ -47,6 +57,8 @@ def run_budgeted(fn, data, kw, budget):
             return "raises", type(e).__name__, count[0]
     finally:
         sys.settrace(None)
+        signal.setitimer(signal.ITIMER_REAL, 0)
+        signal.signal(signal.SIGALRM, old)
 
 
 def hostile(rng, n_random):
@@ -82,6 +94,22 @@ def hostile(rng, n_random):
         for k in range(3):
             d[8 + 24 * k + 20: 8 + 24 * k + 24] = adl.to_bytes(4, "big")
         out.append(d)
+    # text inside the data: iSCSI TransportIDs (READ FULL STATUS) with format 00b / 01b and names that are long runs of
+    # one character class, lack the ",i,0x" separator, carry a non-hex or empty ISID, NULs or non-UTF-8 bytes
+    names = [b"a" * 30, b"a" * 64, b"iqn." + b"x" * 60, b"A1" * 40, b"iqn.2001-04.com.example:" + b"storage" * 8,
+             b"a" * 40 + b",i,0x", b"a" * 40 + b",i,0xZZ", b"a" * 40 + b",i,0x0123456789ab", b"." * 50, b"-" * 50, b"a-" * 30,
+             b"\xff\xfe" * 20, b"a\0" * 30, b"", b",i,0x", b"iqn.t,i,0x1,i,0x2"]
+    for nm in names:
+        for fmt in (0x05, 0x45):
+            for pad_ok in (True, False):
+                body = nm + (b"\0" if pad_ok else b"")
+                body += bytes((-len(body)) % 4 if pad_ok else 0)
+                tid = bytes([fmt, 0]) + len(body).to_bytes(2, "big") + body
+                desc = bytearray(24)
+                desc[20:24] = len(tid).to_bytes(4, "big")
+                d = bytearray(8) + desc + tid
+                d[4:8] = (len(d) - 8).to_bytes(4, "big")
+                out.append(d)
     return out
 
 
